@@ -35,8 +35,16 @@ def pad_enc(rnd, mode):
 
 def customs_everywhere(rnd, m):
     m.customs = [c for c in m.customs]
+    # a payload shaped like a name section (function-names subsection naming function 0 and 1): harmless in any custom section
+    # that is not THE name section, whatever its name looks like
+    shaped = b'\x01' + bytes([1 + (1 + 1 + 12) + (1 + 1 + 5)]) + b'\x02' + b'\x00' + bytes([12]) + b'stale_helper' + b'\x01' + bytes([5]) + b'other'
+    junk = bytes(rnd.getrandbits(8) for _ in range(rnd.randint(1, 40)))
     payloads = [('', b''), ('x' * 300, b'\x00\x01'), ('.debug_x', bytes(rnd.getrandbits(8) for _ in range(40))),
-                ('producers', b'\x00'), ('my section', b'\xff' * 17), ('name2', b''), ('.debug_line', b'')]
+                ('producers', b'\x00'), ('my section', b'\xff' * 17), ('name2', b''), ('.debug_line', b''),
+                ('namespace', shaped), ('name.old', junk), ('names', shaped), ('nam', shaped), ('Name', shaped), ('name ', junk), (' name', shaped),
+                ('name\x00x', shaped), ('name\x00', junk), ('\x00name', shaped), ('.debug', junk), ('.debug_', b''), ('debug_info', junk),
+                ('linking', junk), ('dylink.0', junk), ('target_features', junk), ('sourceMappingURL', b'\x05a.map'), ('reloc.CODE', junk),
+                ('n\u00e4me', shaped), ('\u8a08', junk)]
     for sid in (0, 1, 2, 3, 4, 5, 6, 7, 8, 9, 12, 10, 11, 99):
         nm, pl = rnd.choice(payloads)
         m.customs.append((sid, nm, pl))
@@ -132,7 +140,10 @@ def main(chk):
         d = os.path.join(root, 'b%d' % bi)
         res = []
         stats = collections.Counter()
-        tb, base_files = translate_files(w2c2, b, os.path.join(d, 'base'), 'm')
+        # base and variants are translated with the same options; -g makes the (real) name section relevant and nothing else
+        opts = [[], ['-g'], ['-p'], [], ['-g', '-p'], ['-m'], ['-g', '-f', '3'], []][bi % 8]
+        stats['opts_' + ('_'.join(opts) or 'none')] += 1
+        tb, base_files = translate_files(w2c2, b, os.path.join(d, 'base'), 'm', opts)
         if tb.rc != 0:
             # the base itself is rejected: C10's business unless the module is outside the supported feature set
             shutil.rmtree(d, ignore_errors=True)
@@ -154,18 +165,18 @@ def main(chk):
                 notes.append(('v8-reject', '%s %s: %s' % (tag, kind, msg[:200])))
                 continue
             vd = os.path.join(d, 'v%d' % vi)
-            tv, vfiles = translate_files(w2c2, vb, vd, 'm')
+            tv, vfiles = translate_files(w2c2, vb, vd, 'm', opts)
             stats['variants'] += 1
             stats['kind_' + kind.split(':')[0]] += 1
-            wf = {'base.wasm': b, 'variant.wasm': vb, 'kind.txt': kind, 'stderr.txt': tv.err[-2000:]}
+            wf = {'base.wasm': b, 'variant.wasm': vb, 'kind.txt': kind, 'stderr.txt': tv.err[-2000:], 'opts.txt': ' '.join(opts)}
             if tv.rc != 0:
-                res.append(('C08:reject:%s' % kind, '%s variant %s rejected by the translator (rc %s): %s' % (tag, kind, tv.rc, tv.err[-300:]), wf, vb))
+                res.append(('C08:reject:%s' % kind, '%s variant %s (options %s) rejected by the translator (rc %s): %s' % (tag, kind, opts, tv.rc, tv.err[-300:]), wf, vb))
             else:
                 vdefs = definitions(vfiles)
                 if vdefs != base_defs:
                     only_b = list((base_defs - vdefs).elements())[:2]
                     only_v = list((vdefs - base_defs).elements())[:2]
-                    res.append(('C08:defs-differ:%s' % kind, '%s variant %s: C definitions differ. base only: %s | variant only: %s' % (
+                    res.append(('C08:defs-differ:%s' % kind, '%s variant %s (options ' + ' '.join(opts) + '): C definitions differ. base only: %s | variant only: %s' % (
                         tag, kind, [x[:200] for x in only_b], [x[:200] for x in only_v]), wf, vb))
                 else:
                     stats['defs-equal'] += 1
@@ -226,8 +237,10 @@ def replay(chk, path):
     d = env.subdir('replay')
     b = open(os.path.join(path, 'base.wasm'), 'rb').read()
     vb = open(os.path.join(path, 'variant.wasm'), 'rb').read()
-    tb, bf = translate_files(w2c2, b, os.path.join(d, 'b'), 'm')
-    tv, vf = translate_files(w2c2, vb, os.path.join(d, 'v'), 'm')
+    op = os.path.join(path, 'opts.txt')
+    opts = open(op).read().split() if os.path.exists(op) else []
+    tb, bf = translate_files(w2c2, b, os.path.join(d, 'b'), 'm', opts)
+    tv, vf = translate_files(w2c2, vb, os.path.join(d, 'v'), 'm', opts)
     print('base rc', tb.rc, 'variant rc', tv.rc, tv.err[-500:])
     chk.ev(2)
     chk.distinct(1)
